@@ -32,6 +32,13 @@ structure Facts where
   freshMapGetters : List String
   /-- exported map-returning methods of `*Spec` that return a field of the receiver itself -/
   aliasMapGetters : List String
+  /-- functions of flatten.go that mutate the document (directly or through replace / schutils) but
+      do not end every successful path with `opts.Spec.reload()` -/
+  phasesWithoutReload : List String
+  /-- `uniqifyName` tests every candidate case-insensitively (no exact map lookup of a candidate) -/
+  uniqifyCaseInsensitive : Bool
+  /-- `for … range` loops over maps in flatten*.go and internal/flatten/**: "function:ranged expression" -/
+  mapRanges : List String
   /-- PathItem fields tested by `SafeParametersFor`, in source order -/
   paramsForMethods : List String
   deriving Repr
@@ -54,6 +61,9 @@ def reference : Facts where
   freshMapGetters := ["AllEnums", "AllPatterns", "HeaderEnums", "HeaderPatterns", "ItemsEnums", "ItemsPatterns",
                       "ParameterEnums", "ParameterPatterns", "SchemaEnums", "SchemaPatterns"]
   aliasMapGetters := ["Operations"]
+  phasesWithoutReload := []
+  uniqifyCaseInsensitive := true
+  mapRanges := []
   paramsForMethods := ["get", "head", "options", "post", "patch", "put", "delete"]
 
 end Facts
